@@ -34,7 +34,7 @@ static uint64_t fingerprint(const OpResult& o, std::string* text = nullptr)
 
 static PlanOp gen_any_op(Rng& rng, bool thorough)
 {
-    std::vector<std::string> pk = keys_for({ "G1", "G2", "G3", "G4", "G5", "G6", "G7", "G8", "G9", "G10", "G11", "G12", "G13", "T1" });
+    std::vector<std::string> pk = keys_for({ "G1", "G2", "G3", "G4", "G5", "G6", "G7", "G8", "G9", "G10", "G11", "G12", "G13", "G14", "T1" });
     std::vector<std::string> rk = regex_keys();
     uint64_t k = rng.below(100);
     PlanOp op;
@@ -76,7 +76,7 @@ static PlanOp gen_any_op(Rng& rng, bool thorough)
     if (f < 40) {}
     else if (f < 75) add_token_faults(op, rng, rng.range(1, 2), *m);
     else add_byte_faults(op, rng, rng.range(1, 2), m);
-    if (rng.chance(2, 5)) op.api = API_CONTEXT_PARSE;
+    if (rng.chance(2, 5)) op.api = rng.chance(1, 3) ? API_CONTEXT_PARSE_TEMP : API_CONTEXT_PARSE;
     if (m->g.custom_lexer && rng.chance(1, 5)) op.lex_fail_call = int64_t(rng.below(op.toks.size() + 1));
     // a call that leaves by exception (failing allocation inside the library or inside a functor): what it leaves
     // behind must not reach the next call of the same thread
@@ -84,8 +84,42 @@ static PlanOp gen_any_op(Rng& rng, bool thorough)
     return op;
 }
 
+// "Cold start": the very first calls a process ever makes on a handful of parsers, made by several tasks at once
+// (write_diag_str, a verbose failing parse, a quiet parse). Anything the library initialises lazily on first use is
+// initialised under interleaving here. Every worker process begins its batch with one of these (negative index).
+static Plan gen_c15_cold(uint64_t seed, int64_t index)
+{
+    Rng rng(hash_seed(seed, "C15.cold", index));
+    Plan p;
+    p.seed = seed; p.index = index; p.property = "C15"; p.mode = "cold_start";
+    p.interleaved_first = true;
+    std::vector<std::string> pk = keys_for({ "G1", "G2", "G3", "G4", "G5", "G6", "G7", "G8", "G9", "G10", "G11", "G12", "G13", "G14", "T1" });
+    std::vector<PlanOp> ops;
+    for (int k = 0; k < 5; ++k)
+    {
+        std::string key = rng.pick(pk);
+        const ref::Model* m = model_for(grammar_of(key));
+#ifndef SIM_ASAN
+        { PlanOp d; d.parser = key; d.api = API_DIAG; d.use_raw = true; d.stream = STR_SIM; ops.push_back(d); }
+#endif
+        OpShape sh; sh.budget = 6; sh.buffers = { BUF_SIM, BUF_STRING }; sh.streams = { STR_SIM }; sh.p_skip_ws_off = 0; sh.p_skip_nl_off = 0;
+        PlanOp v = make_sentence_op(rng, key, sh); v.verbose = true; add_token_faults(v, rng, 1, *m); ops.push_back(v);
+        PlanOp q = make_sentence_op(rng, key, sh); add_byte_faults(q, rng, 1, m); ops.push_back(q);
+    }
+    int nt = 3;
+    for (int t = 0; t < nt; ++t)
+    {
+        PlanTask pt;
+        for (size_t i = 0; i < ops.size(); ++i) pt.ops.push_back(ops[(i + size_t(t) * 3) % ops.size()]);
+        p.tasks.push_back(pt);
+    }
+    for (int i = 0; i < 4096; ++i) p.schedule.push_back(rng.chance(45, 100) ? uint8_t(rng.range(1, 3)) : uint8_t(0));
+    return p;
+}
+
 static Plan gen_c15(uint64_t seed, int64_t index, bool thorough)
 {
+    if (index < 0) return gen_c15_cold(seed, index);
     Rng rng(hash_seed(seed, "C15", index));
     Plan p;
     p.seed = seed; p.index = index; p.property = "C15";
@@ -97,6 +131,7 @@ static Plan gen_c15(uint64_t seed, int64_t index, bool thorough)
     else if (k < 40) { p.mode = "sparse"; density = rng.range(1, 5); }
     else if (k < 80) { p.mode = "medium"; density = rng.range(6, 25); }
     else { p.mode = "dense"; density = rng.range(26, 60); }
+    p.interleaved_first = rng.chance(1, 3);   // first calls (lazy initialisation) happen under interleaving
     p.share_streams = rng.chance(1, 2);       // each task logs all its calls to ONE long-lived std::ostream object
     bool same_parser = rng.chance(1, 2);      // bias: all tasks hammer one parser object
     std::string shared_key;
@@ -182,8 +217,11 @@ static std::vector<uint64_t> run_canary(CaseCtx& cx, std::vector<std::string>* t
 static std::vector<Violation> case_c15(const Plan& p, CaseCtx& cx)
 {
     std::vector<Violation> vs;
+    // (no canaries around a cold-start case: they would make the first calls themselves)
+    const bool with_canaries = p.mode != "cold_start";
     std::vector<std::string> ctext0;
-    std::vector<uint64_t> canary0 = run_canary(cx, &ctext0);
+    std::vector<uint64_t> canary0;
+    if (with_canaries) canary0 = run_canary(cx, &ctext0);
 
     // solo runs of every op (each alone, single task, no switching), before and after the interleaved run
     auto solo = [&](std::vector<std::vector<uint64_t>>& fps, std::vector<std::vector<std::string>>& txt)
@@ -208,7 +246,7 @@ static std::vector<Violation> case_c15(const Plan& p, CaseCtx& cx)
     };
     std::vector<std::vector<uint64_t>> before, after;
     std::vector<std::vector<std::string>> tb, ta;
-    solo(before, tb);
+    if (!p.interleaved_first) solo(before, tb);
 
     Plan ph = p; ph.hash_images = true;
     RunResult rr = exec_plan(ph, kFlags);
@@ -221,8 +259,10 @@ static std::vector<Violation> case_c15(const Plan& p, CaseCtx& cx)
     }
 
     solo(after, ta);
+    if (p.interleaved_first) { solo(before, tb); if (cx.st) cx.st->add("probe.interleaved_run_before_any_solo_run"); }   // "before" = a second solo pass
     std::vector<std::string> ctext1;
-    std::vector<uint64_t> canary1 = run_canary(cx, &ctext1);
+    std::vector<uint64_t> canary1;
+    if (with_canaries) canary1 = run_canary(cx, &ctext1);
 
     for (size_t t = 0; t < p.tasks.size(); ++t)
         for (size_t i = 0; i < p.tasks[t].ops.size(); ++i)
@@ -250,7 +290,7 @@ static std::vector<Violation> case_c15(const Plan& p, CaseCtx& cx)
                 return vs;
             }
             // 4. context confinement
-            int64_t ctx_reds = 0; for (const auto& r : o.rec.reds) if (r.ctx == 2) ++ctx_reds;
+            int64_t ctx_reds = 0; for (const auto& r : o.rec.reds) if (r.ctx >= 2) ++ctx_reds;
             if (o.rec.ctx_foreign || (o.out.exc == 0 && (o.rec.ctx_touches != ctx_reds || (o.op.api == API_CONTEXT_PARSE && o.out.ctx_touches != int(ctx_reds)))))
             {
                 vs.push_back(make_violation("C15", "context_not_confined", who + ": a contextual functor received another call's context, or the context was touched " +
